@@ -10,8 +10,12 @@ package snapshot
 // A node start runs Upgrade7To8(raft/snapshots -> raft/rsnapshots), Upgrade8To10(raft/rsnapshots
 // -> raft/wsnapshots) and then opens the snapshot store (store/store.go). The harness builds an
 // old-format directory, runs the REAL upgrade functions and lets the process die at crash point k
-// (fsmodel.go: every mutating file-system call), starts the node again - optionally dying again -
-// and finally lets a start run to its end. The oracle is the property text.
+// (fsmodel.go: every mutating file-system call) - before the call, or INSIDE it when the call is
+// not atomic (a file write or copy cut after any number of bytes, a recursive removal after any
+// subset of the entries, see fsmodel.go) -, starts the node again - optionally dying again - and
+// finally lets a start run to its end. The oracle is the property text; in addition, whenever the
+// process has died the newest original snapshot must still be on disk in one of the formats (the
+// old directory goes away only when the new one is complete).
 //
 //   VerifC08Upgrade8To10   v8 directory (1..2 snapshots), Upgrade8To10 + store check
 //   VerifC08FromV7         v7 directory (1..2 snapshots), the whole start sequence
@@ -24,6 +28,7 @@ import (
 	"compress/gzip"
 	"os"
 	"path/filepath"
+	"strings"
 
 	"github.com/hashicorp/raft"
 )
@@ -43,8 +48,10 @@ func vUpDirs(root string) vUp {
 
 // what the newest original snapshot is
 type vOrig struct {
+	id          string
 	index, term uint64
 	content     string
+	file        []byte // the bytes of its database file (v8) / state file (v7)
 }
 
 type vOldSnap struct {
@@ -83,7 +90,8 @@ func vBuildV8(w vUp, shape []vOldSnap) vOrig {
 		vMust(os.WriteFile(filepath.Join(sd, sp.id+".data"), nil, 0o644))
 		vMust(os.WriteFile(filepath.Join(w.old8, sp.id+".db"), vDBWith(sp.wals), 0o644))
 	}
-	return vOrig{index: shape[0].index, term: shape[0].term, content: vContentOfBytes(w.root, vDBWith(shape[0].wals))}
+	return vOrig{id: shape[0].id, index: shape[0].index, term: shape[0].term, content: vContentOfBytes(w.root, vDBWith(shape[0].wals)),
+		file: vDBWith(shape[0].wals)}
 }
 
 // vStateBin is a v7 state file: 16 header bytes followed by the gzip-compressed database (nothing
@@ -121,11 +129,37 @@ func vBuildV7(w vUp, shape []vOldSnap, emptyState, olderWithoutState bool) vOrig
 		}
 		vMust(os.WriteFile(filepath.Join(sd, v7StateFile), vStateBin(dbBytes), 0o644))
 	}
-	o := vOrig{index: shape[0].index, term: shape[0].term}
+	o := vOrig{id: shape[0].id, index: shape[0].index, term: shape[0].term}
 	if !emptyState {
 		o.content = vContentOfBytes(w.root, vDBWith(shape[0].wals))
 	}
+	var err error
+	o.file, err = os.ReadFile(filepath.Join(w.old7, o.id, v7StateFile))
+	vMust(err)
 	return o
+}
+
+// vMetaIs: the directory holds readable metadata of the newest original snapshot.
+func vMetaIs(dir string, orig vOrig) bool {
+	m, err := readRaftMeta(metaPath(dir))
+	return err == nil && m.ID == orig.id && m.Index == orig.index && m.Term == orig.term
+}
+
+// vOriginalOnDisk: the newest original snapshot can still be had from what is on disk - untouched
+// in the old v7 directory, or whole in the v8 directory, or as the snapshot of the new store.
+func vOriginalOnDisk(w vUp, withV7 bool, orig vOrig) bool {
+	if withV7 && vMetaIs(filepath.Join(w.old7, orig.id), orig) {
+		if b, err := os.ReadFile(filepath.Join(w.old7, orig.id, v7StateFile)); err == nil && bytes.Equal(b, orig.file) {
+			return true
+		}
+	}
+	if vMetaIs(filepath.Join(w.old8, orig.id), orig) {
+		if c, err := vContent(filepath.Join(w.old8, orig.id+".db"), nil); err == nil && c == orig.content {
+			return true
+		}
+	}
+	v := vObserve(w.new10)
+	return v.ok && v.index == orig.index && v.term == orig.term && v.content == orig.content
 }
 
 // vStart is what a node start does with the snapshot directories (store/store.go, Store.Open).
@@ -143,11 +177,32 @@ func vStart(w vUp, withV7 bool) error {
 }
 
 func vMarkUpgradeCrash(w vUp) {
+	if vCr.part > 0 {
+		switch {
+		case vCr.path == w.plan+".tmp":
+			verifReach("crash-inside-plan-write")
+		case vCr.op == vOpWriteFile:
+			verifReach("crash-inside-meta-write")
+		case vCr.op == vOpIoCopy && strings.HasPrefix(vCr.path, w.new10+tmpSuffix) && vCr.cut >= 16:
+			verifReach("crash-inside-database-copy")
+		case vCr.op == vOpSidecar:
+			verifReach("crash-inside-checksum-write")
+		case vCr.op == vOpRemoveAll && vCr.path == w.old8:
+			verifReach("crash-inside-old-directory-removal")
+		case vCr.op == vOpIoCopy && strings.HasPrefix(vCr.path, w.old8+tmpSuffix):
+			verifReach("crash-inside-v7-conversion-copy")
+		case vCr.op == vOpRemoveDirSy:
+			verifReach("crash-inside-v7-removal")
+		}
+		return
+	}
 	switch {
 	case vCr.path == w.plan+".tmp":
 		verifReach("crash-while-writing-plan")
 	case vCr.op == vOpOpenFile:
 		verifReach("crash-before-database-copy")
+	case vCr.op == vOpIoCopy && strings.HasPrefix(vCr.path, w.new10+tmpSuffix):
+		verifReach("crash-with-empty-database-copy")
 	case vCr.op == vOpRename && vCr.path == w.new10+tmpSuffix:
 		verifReach("crash-before-move-into-place")
 	case vCr.op == vOpRemoveAll && vCr.path == w.old8:
@@ -169,8 +224,11 @@ var vPTSShape int
 var vPTSEmpty, vPTSWithout bool
 
 // vUpgradeScenario: a node start dying at a chosen crash point (or not at all), then up to
-// `restarts` further starts dying at chosen crash points, then one start that is left alone.
-func vUpgradeScenario(w vUp, withV7 bool, restarts int, orig vOrig) {
+// len(modes)-1 further starts dying at chosen crash points, then one start that is left alone.
+// modes[i] says how the call in flight of the i-th process can be cut short (fsmodel.go). lean: a
+// first process that died inside a call is followed by the uninterrupted start at once.
+func vUpgradeScenario(w vUp, withV7 bool, modes []int, lean bool, orig vOrig) {
+	restarts := len(modes) - 1
 	n := vCountPoints(func() { vStart(w, withV7) })
 	at := 1 + verifChoice("crashAt", n+1) // n+1: the first start runs to its end
 	var serr error
@@ -178,7 +236,7 @@ func vUpgradeScenario(w vUp, withV7 bool, restarts int, orig vOrig) {
 	// had been executed (the new directory exists) and the plan file was still there.
 	// Upgrade8To10 then re-executes the plan from its first operation, which cannot succeed.
 	diedAfterMove := false
-	if !vRunCrash(at, func() { serr = vStart(w, withV7) }) {
+	if !vRunCrashPart(at, 0, modes[0], func() { serr = vStart(w, withV7) }) {
 		verifAssume(at == vCr.count+1)
 		verifAssert("C08-start-without-crash-succeeds", serr == nil)
 		verifAssert("C08-completed-start-leaves-no-plan", !vExists(w.plan))
@@ -186,18 +244,27 @@ func vUpgradeScenario(w vUp, withV7 bool, restarts int, orig vOrig) {
 	} else {
 		vMarkUpgradeCrash(w)
 		diedAfterMove = vExists(w.plan) && vIsDir(w.new10)
+		verifAssert("C08-original-still-on-disk-after-crash", vOriginalOnDisk(w, withV7, orig))
+	}
+	part0 := vCr.part
+	if lean && part0 > 0 {
+		restarts = 0
 	}
 	for i := 0; i < restarts; i++ {
 		n2 := vCountPoints(func() { vStart(w, withV7) })
 		if i == 0 && verifSymbolic() {
-			println("PTS", vPTSName, vPTSShape, vPTSEmpty, vPTSWithout, at, n2) // compared with the native sweep (sweep_test.go)
+			println("PTS", vPTSName, vPTSShape, vPTSEmpty, vPTSWithout, at, part0, n2) // compared with the native sweep (sweep_test.go)
 		}
 		k := verifChoice(verifName("crashInRestart", i), n2+1) // 0: this start is not interrupted
 		if k == 0 {
 			break
 		}
-		verifAssume(vRunCrash(k, func() { vStart(w, withV7) }))
+		verifAssume(vRunCrashPart(k, i+1, modes[i+1], func() { vStart(w, withV7) }))
 		verifReach("crash-during-restart")
+		if vCr.part > 0 {
+			verifReach("crash-inside-a-call-during-restart")
+		}
+		verifAssert("C08-original-still-on-disk-after-crash", vOriginalOnDisk(w, withV7, orig))
 		if vExists(w.plan) && vIsDir(w.new10) {
 			diedAfterMove = true
 		}
@@ -218,6 +285,11 @@ func vUpgradeScenario(w vUp, withV7 bool, restarts int, orig vOrig) {
 	verifAssert("C08-index-of-newest-original", v.index == orig.index)
 	verifAssert("C08-term-of-newest-original", v.term == orig.term)
 	verifAssert("C08-database-of-newest-original", v.content == orig.content)
+	if !withV7 {
+		// v8 and v10 keep the database as the same kind of file: the upgrade moves it unchanged
+		b, err := os.ReadFile(filepath.Join(w.new10, orig.id, dbfileName))
+		verifAssert("C08-database-file-of-newest-original", err == nil && bytes.Equal(b, orig.file))
+	}
 	verifAssert("C08-checksum-records-match", v.crcOK)
 	verifAssert("C08-directory-named-after-snapshot-id", v.idsOK)
 	verifAssert("C08-store-has-no-leftovers", !vLeftovers(w.new10))
@@ -228,9 +300,14 @@ func vUpgradeScenario(w vUp, withV7 bool, restarts int, orig vOrig) {
 	verifAssert("C08-later-starts-change-nothing", v2.ok && v2.n == 1 && v2.index == orig.index && v2.term == orig.term && v2.content == orig.content)
 }
 
-// VerifC08Upgrade8To10: v8 directory; a crash at every crash point of the start, then at every
-// crash point of the restarted start (or none); for the single-snapshot shape, and for all shapes
-// in the thorough tier, a third crash in the start after that.
+// VerifC08Upgrade8To10: v8 directory; the process dies at every crash point of the start, before
+// the call or inside it; the restarted start dies at every crash point (or none).
+//   quick:    two-snapshot shapes: first crash before/inside the call (thin), a second crash
+//             (before the call) only after a first crash before the call;
+//             one-snapshot shape: both crashes before/inside the call (thin), or ("deep") three
+//             crashes before the call
+//   thorough: every shape: first crash before/inside the call (every cut, every subset), second
+//             before/inside (thin); or three crashes before the call
 func VerifC08Upgrade8To10() {
 	verifPanicsAreViolations()
 	root := vNewRoot("r")
@@ -238,12 +315,18 @@ func VerifC08Upgrade8To10() {
 	w := vUpDirs(root)
 	shapeNo := verifChoice("shape", len(vOldShapes))
 	orig := vBuildV8(w, vOldShapes[shapeNo])
-	restarts := 1
+	modes := []int{vPartThin, vPartNone}
 	if verifTier() > 0 || shapeNo == 0 {
-		restarts = 2
+		modes = []int{vPartThin, vPartThin}
+		if verifTier() > 0 {
+			modes = []int{vPartFull, vPartThin}
+		}
+		if verifChoice("deep", 2) == 1 {
+			modes = []int{vPartNone, vPartNone, vPartNone}
+		}
 	}
 	vPTSName, vPTSShape, vPTSEmpty, vPTSWithout = "VerifC08Upgrade8To10", shapeNo, false, false
-	vUpgradeScenario(w, false, restarts, orig)
+	vUpgradeScenario(w, false, modes, verifTier() == 0 && shapeNo > 0, orig)
 }
 
 // VerifC08FromV7: v7 directory, the whole start sequence (7 -> 8 -> 10 -> store check).
@@ -264,7 +347,11 @@ func VerifC08FromV7() {
 	}
 	orig := vBuildV7(w, vOldShapes[shapeNo], emptyState, olderWithoutState)
 	vPTSName, vPTSShape, vPTSEmpty, vPTSWithout = "VerifC08FromV7", shapeNo, emptyState, olderWithoutState
-	vUpgradeScenario(w, true, 1, orig)
+	modes := []int{vPartThin, vPartNone}
+	if verifTier() > 0 {
+		modes = []int{vPartFull, vPartThin}
+	}
+	vUpgradeScenario(w, true, modes, verifTier() == 0, orig)
 }
 
 // VerifC08Twin (must be violated): the same scenario, but the node is not started again after
